@@ -105,6 +105,14 @@ CHECKS = {
              "allocation whose size is taken unchecked from the input.",
         note="Trusted: interpreter, z3, ideal-primitive and DH-algebra stubs. Whole-blob arbitrary buffers of realistic size are outside the technique; the composition "
              "argument over units is by inspection of the call graph."),
+    "C10": dict(
+        text="One inductive step from an arbitrary valid cache state: KeyCache._get_key and _store_key are executed with the stored envelope (absent or at any position of "
+             "[0,31]^2 with the chain keys of its own position), the root-key flag and the requested / stored position all symbolic; z3 proves the representation invariant is "
+             "preserved, a returned envelope always covers the request and derives the spec key, no RPC is needed when covering material exists, the stored position never "
+             "decreases and a neighbour triple is untouched. The cache methods' ASTs are checked to contain no await, so interleavings are sequences of these steps. Six "
+             "operation histories run through the public API against a conforming-DC stub with an RPC counter.",
+        note="Trusted: interpreter, z3, the invariant (MS-GKDI 2.2.4 shapes), chain-step KDF stub, conforming-DC stub. L0 is a listed dictionary key; await-point interleaving of "
+             "the async API is argued from the AST check, not executed."),
 }
 
 _PENDING = "check not built yet in this round (work in progress; see DESIGN.md for the plan)"
